@@ -86,11 +86,16 @@ class Namer:
 NAMER = Namer()
 fresh = NAMER.fresh
 fresh_fun = NAMER.fresh_fun
-_bv = itertools.count()
+_bv = [itertools.count()]
+
+
+def reset_bound():
+    """deterministic bound-variable names per path (contract-level axioms use the range below 100000)"""
+    _bv[0] = itertools.count(100000)
 
 
 def bound(sort, base="q"):
-    return Const("%s?%d" % (base, next(_bv)), sort)
+    return Const("%s?%d" % (base, next(_bv[0])), sort)
 
 
 def FA(sorts, body, pats=None):
@@ -99,7 +104,8 @@ def FA(sorts, body, pats=None):
     b = body(*vs)
     if pats is not None:
         p = pats(*vs)
-        return ForAll(vs, b, patterns=p)
+        if p:
+            return ForAll(vs, b, patterns=p)
     return ForAll(vs, b)
 
 
